@@ -13,7 +13,7 @@ import random
 from . import decoderrun as dr
 from . import vloop
 
-KIND = {"ebyte": "ebyte", "usb": "waveshare", "yd": "yd"}
+KIND = {"ebyte": "ebyte", "usb": "waveshare", "yd": "yd", "actisense": "actisense"}
 CFGS = {
     "NoFilter": ({"mode": "none", "nums": [], "ids": [], "mfrMode": "none", "mfrs": [], "netmap": False}, {}),
     "ExcludeB": ({"mode": "exclude", "nums": ["B"], "ids": [], "mfrMode": "none", "mfrs": [], "netmap": False},
